@@ -1,6 +1,15 @@
 """Long prediction / update histories on the real python.ExtendedKalmanFilter.
 in: {"jobs": [{"defn", "cse", "max_dt", "ops": [["p", dt, {control}] | ["u", key, {reading}]], "P0": [[..]], "x0": {..}}]}
-out: per job {"steps_done", "failed_at", "failure", "min_rel_eig", "max_asym_rel", "max_abs", "stopped": reason}"""
+out: per job {"steps_done", "failed_at", "failure", "min_rel_eig", "max_asym_rel", "max_abs", "stopped": reason,
+              "amp_rel": first-order bound on accumulated rounding relative to magnitude at the last step, "amp_max"}
+
+Rounding bound.  A rounding error dP injected at one step reaches later covariances as F dP F^T with F = G for a
+prediction and F = I - K H for an update (the derivative of both update forms at the optimal gain).  The harness
+therefore carries the matrix recurrence  E' = F E F^T + C u (size of the products formed in this step) I, with
+u = 2^-53 and a generous constant C, using the filter's own Jacobians: if -E <= dP <= E in the Loewner order then
+-F E F^T <= F dP F^T <= F E F^T, so lambda_max(E) bounds every eigenvalue defect to first order.  lambda_max(E) / max(1, |P|) is the level at which
+'up to rounding relative to magnitude' can be asked of ANY covariance-form implementation on this history; on
+histories whose noise-free dynamics are expansive it grows exponentially and no fixed tolerance can hold."""
 import json, sys, traceback
 import numpy as np
 sys.path.insert(0, __file__.rsplit("/", 1)[0])
@@ -15,8 +24,38 @@ def run_job(job):
     ekf = python.compile_ekf(model, pn, sensors, sn, cm, config=cfg)
     state = ekf.State(**job["x0"])
     cov = ekf.Covariance.from_data(np.array(job["P0"], dtype=float))
-    out = {"steps_done": 0, "failed_at": None, "failure": None, "min_rel_eig": 0.0, "max_asym_rel": 0.0, "max_abs": 0.0, "stopped": None}
+    out = {"steps_done": 0, "failed_at": None, "failure": None, "min_rel_eig": 0.0, "max_asym_rel": 0.0, "max_abs": 0.0, "stopped": None,
+           "amp_rel": 0.0, "amp_max": 0.0, "defect_over_bound": 0.0, "max_defect_rel": 0.0}
+    n = len(defn["state"])
+    U = 2.0 ** -53
+    CONST = 16.0 * n
+    E = np.zeros((n, n))
+    I_n = np.eye(n)
+    amp_limit = job.get("amp_limit")
+    nrm = lambda A: float(np.linalg.norm(A, 2)) if A.size else 0.0  # noqa: E731
+    Mn = max([abs(float(v)) for v in defn.get("process_noise", {}).values()] + [0.0])
     for i, op in enumerate(job["ops"]):
+        # ---- rounding bound for this step, from the filter's own Jacobians at the state BEFORE the step
+        try:
+            Pn = nrm(cov.data)
+            if op[0] == "p":
+                ctl = ekf.Control(**op[2])
+                Gm = ekf.process_jacobian(float(op[1]), state, ctl)
+                Vm = ekf.control_jacobian(float(op[1]), state, ctl)
+                g = nrm(Gm)
+                E = Gm @ E @ Gm.T + CONST * U * (g * g * Pn + nrm(np.asarray(Vm, dtype=float)) ** 2 * Mn) * I_n
+            else:
+                Hm = ekf.sensor_jacobian(op[1], state)
+                Qn = max(abs(float(v)) for v in defn["sensor_noise"][op[1]].values())
+                Ps = (cov.data + cov.data.T) / 2
+                Sm = Hm @ Ps @ Hm.T + np.diag([float(defn["sensor_noise"][op[1]][r]) for r in sorted(defn["sensor_noise"][op[1]])])
+                Km = Ps @ Hm.T @ np.linalg.inv(Sm)
+                Fm = I_n - Km @ Hm
+                k_, h_ = nrm(Km), nrm(Hm)
+                E = Fm @ E @ Fm.T + CONST * U * (Pn * (1 + k_ * h_) ** 2 + k_ * k_ * Qn + k_ * h_ * Pn * float(np.linalg.cond(Sm))) * I_n
+        except Exception as e:  # noqa
+            out["stopped"] = "bound computation failed: " + type(e).__name__
+            break
         try:
             if op[0] == "p":
                 state, cov = ekf.process_model(float(op[1]), state, cov, ekf.Control(**op[2]))
@@ -25,6 +64,7 @@ def run_job(job):
         except AssertionError as e:
             out["failed_at"], out["failure"] = i, "AssertionError: " + str(e)[:400]
             out["last_cov"] = [[float(x) for x in row] for row in cov.data]
+            out["amp_rel_at_failure"] = (float(np.linalg.eigvalsh((E + E.T) / 2)[-1]) if np.all(np.isfinite(E)) else float("inf")) / max(1.0, float(np.max(np.abs(cov.data))))
             break
         except Exception as e:  # noqa
             out["failed_at"], out["failure"] = i, type(e).__name__ + ": " + str(e)[:300]
@@ -35,10 +75,21 @@ def run_job(job):
             out["stopped"] = "magnitude bound exceeded"
             break
         sc = max(1.0, mx)
+        E = (E + E.T) / 2
+        En = float(np.linalg.eigvalsh(E)[-1]) if np.all(np.isfinite(E)) else float("inf")
+        out["amp_rel"] = En / sc
+        out["amp_max"] = max(out["amp_max"], En / sc)
+        if amp_limit is not None and En / sc > amp_limit:
+            out["stopped"] = "rounding amplification bound exceeded"
+            break
         out["max_abs"] = max(out["max_abs"], mx)
         out["max_asym_rel"] = max(out["max_asym_rel"], float(np.max(np.abs(P - P.T))) / sc)
         ev = np.linalg.eigvalsh((P + P.T) / 2)
         out["min_rel_eig"] = min(out["min_rel_eig"], float(ev[0]) / max(1.0, float(ev[-1])))
+        defect = max(-float(ev[0]), float(np.max(np.abs(P - P.T))), 0.0)
+        out["max_defect_rel"] = max(out["max_defect_rel"], defect / sc)
+        if En > 0:
+            out["defect_over_bound"] = max(out["defect_over_bound"], defect / En)
         out["steps_done"] = i + 1
     return out
 
